@@ -57,6 +57,95 @@ def run(ctx):
   melody_range(ctx)
   pitfall_sites(ctx)
   deep_copies(ctx)
+  slice_offset_grid(ctx)
+
+
+def slice_offset_grid(ctx):
+  """Location-independent, finite grid: a slice of an event sequence "carries the step offset of the elements it contains": the
+  start step of seq[a:b:c] is start_step + (index of the first selected element), which is what slice.indices(len)[0] gives.
+  If __getitem__ computes that offset itself (in a helper or inline), the computation is read path by path (sa.pathval) and
+  folded for starts None, -8, -4, -3, -1, 0, 1, 3, 8, steps None, 1, 2 and lengths 0, 1, 3, and compared with
+  slice(start, None, step).indices(length)[0] - Python's own normalisation, computed by the checker."""
+  from sa import pathval, scenario
+  ci = ctx.cls('events_lib:SimpleEventSequence')
+  gi = ci.methods['__getitem__']
+  cons = 'the offset of a slice is the index of its first element (slice.indices(len)[0])'
+  kw = None
+  for c in U.calls_in(gi.node):
+    for k in c.keywords:
+      if k.arg == 'start_step':
+        kw = (c, U.expand_locals(gi.node, k.value, at=c))
+  if kw is None:
+    why = 'cannot classify: __getitem__ builds no sequence with a start_step'
+    ctx.ob('SLICE/offset-grid', gi, gi.node, False, why, construct=cons, unknown=why)
+    return
+  call, val = kw
+  off = None
+  if isinstance(val, ast.BinOp) and isinstance(val.op, ast.Add):
+    for a, b in ((val.left, val.right), (val.right, val.left)):
+      if norm_text(a) in ('self.start_step', 'self._start_step'):
+        off = b
+  if off is None:
+    why = 'cannot classify: the start step of a slice is %s' % norm_text(val)[:60]
+    ctx.ob('SLICE/offset-grid', gi, call, False, why, construct=cons, unknown=why)
+    return
+  if isinstance(off, ast.Subscript) and U.const_value(off.slice) == 0 and isinstance(off.value, ast.Call) and isinstance(off.value.func, ast.Attribute) and off.value.func.attr == 'indices':
+    ctx.ob('SLICE/offset-grid', gi, call, True, 'the offset is slice.indices(len)[0]', construct=cons)
+    return
+  key = gi.params()[1]
+  alts = [([], off)]
+  if isinstance(off, ast.Call) and isinstance(off.func, ast.Attribute) and norm_text(off.func.value) == 'self' and off.func.attr in ci.methods and len(off.args) == 1:
+    h = ci.methods[off.func.attr]
+    try:
+      alts = [(c_, e_[pathval.RETURN]) for c_, e_, end in pathval.paths(h.node.body, {h.params()[1]: off.args[0]}, opaque=True) if end == 'return' and pathval.RETURN in e_]
+    except pathval.PathError as e:
+      why = 'cannot classify: %s' % e
+      ctx.ob('SLICE/offset-grid', gi, call, False, why, construct=cons, unknown=why)
+      return
+  flat = []
+  for c_, v_ in alts:
+    if isinstance(v_, ast.IfExp):
+      flat.append((c_ + [(v_.test, True)], v_.body))
+      flat.append((c_ + [(v_.test, False)], v_.orelse))
+    else:
+      flat.append((c_, v_))
+  bad = None
+  n = 0
+  for length in (0, 1, 3):
+    for start in (None, -8, -4, -3, -1, 0, 1, 3, 8):
+      for step in (None, 1, 2):
+        env = {'%s.start' % key: ast.Constant(value=start), '%s.step' % key: ast.Constant(value=step), '%s.stop' % key: ast.Constant(value=None),
+               'len(self._events)': ast.Constant(value=length), 'len(self)': ast.Constant(value=length)}
+        got = []
+        for c_, v_ in flat:
+          taken = True
+          for t, p in c_:       # in order: a later condition is only evaluated on the path that reaches it
+            x = scenario.fold_numeric(pathval.subst(t, env), {})
+            if x is None:
+              taken = None
+              break
+            if bool(x) != p:
+              taken = False
+              break
+          if taken is None:
+            got = None
+            break
+          if taken:
+            got.append(scenario.fold_numeric(pathval.subst(v_, env), {}))
+        if got is None or len(got) != 1 or got[0] is None:
+          why = 'cannot classify: the slice offset cannot be folded for start %r, step %r, length %d' % (start, step, length)
+          ctx.ob('SLICE/offset-grid', gi, call, False, why, construct=cons, unknown=why)
+          return
+        want = slice(start, None, step).indices(length)[0]
+        n += 1
+        if got[0] != want and bad is None:
+          bad = (start, step, length, got[0], want)
+  if bad:
+    start, step, length, g, w = bad
+    ctx.ob('SLICE/offset-grid', gi, call, False, 'for a sequence of %d events, seq[%s::%s] selects from index %d on, but its start step is moved by %s: the slice holds the events from index %d '
+           'with the step offset of another position, so indexing by step and end_step are wrong' % (length, start, step if step is not None else '', w, g, w), construct=cons, definite=True)
+  else:
+    ctx.ob('SLICE/offset-grid', gi, call, True, 'the hand-written offset agrees with slice.indices(len)[0] on %d (start, step, length) combinations' % n, construct=cons)
 
 
 def deep_copies(ctx):
